@@ -1,7 +1,8 @@
 //! C10, the emitting side: the public `emit_file` API (`set_with_writer` / `set`, `FileSet::emit`,
 //! `blocking_flush`) on a real temporary directory. Ties the hypothesis of the C10 theorems — every event buffer
-//! handed to the worker ends with the separator — to `FileSetInner::emit`, and checks that the default JSON
-//! writer never puts the separator inside a record.
+//! handed to the worker ends with the separator — to `FileSetInner::emit`, scripts writers that FAIL after writing
+//! 0..k bytes (the event must be dropped whole, later events from the same or another thread unaffected), and
+//! checks that the default JSON writer never puts the separator inside a record.
 
 use hcommon::{hex_atom, Rng, Sexp, Stream, Tier};
 use std::collections::VecDeque;
@@ -38,39 +39,70 @@ fn read_all(dir: &std::path::Path) -> Vec<u8> {
     out
 }
 
-fn run_custom(sep: Vec<u8>, evs: Vec<Vec<u8>>) -> String {
+/// One event of a case: what the writer puts into the buffer, whether it then fails, and whether the event is
+/// emitted from another thread.
+#[derive(Clone)]
+struct Item {
+    bytes: Vec<u8>,
+    fail: bool,
+    other_thread: bool,
+}
+
+fn run_custom(sep: Vec<u8>, items: Vec<Item>) -> String {
     let dir = temp_dir();
-    let queue: Arc<Mutex<VecDeque<Vec<u8>>>> = Arc::new(Mutex::new(evs.iter().cloned().collect()));
+    let queue: Arc<Mutex<VecDeque<Item>>> = Arc::new(Mutex::new(items.iter().cloned().collect()));
     let q = queue.clone();
     let files = emit_file::set_with_writer(
         dir.join("app.log"),
         move |buf, _evt| {
-            if let Some(p) = q.lock().unwrap().pop_front() {
-                buf.extend_from_slice(&p);
+            match q.lock().unwrap().pop_front() {
+                Some(item) => {
+                    buf.extend_from_slice(&item.bytes);
+                    if item.fail {
+                        Err(std::io::Error::new(std::io::ErrorKind::Other, "scripted format failure"))
+                    } else {
+                        Ok(())
+                    }
+                }
+                None => Ok(()),
             }
-            Ok(())
         },
         intern(&sep),
     )
     .spawn();
-    for _ in &evs {
+    let emit_one = |files: &emit_file::FileSet| {
         let evt = emit::Event::new(emit::Path::new_raw("m"), emit::Template::literal("x"), emit::Empty, emit::Empty);
-        emit::Emitter::emit(&files, evt);
+        emit::Emitter::emit(files, evt);
+    };
+    for item in &items {
+        if item.other_thread {
+            // sequential, so the order of events is the order of the case
+            std::thread::scope(|s| {
+                s.spawn(|| emit_one(&files)).join().unwrap();
+            });
+        } else {
+            emit_one(&files);
+        }
     }
     let flushed = emit::Emitter::blocking_flush(&files, Duration::from_secs(20));
+    let failed = files.metric_source().event_format_failed();
     drop(files);
     let content = read_all(&dir);
     let _ = std::fs::remove_dir_all(&dir);
-    let mut out = hex_atom(&content);
+    let mut out = format!("{} failed={}", hex_atom(&content), failed);
+    let oks: Vec<&Vec<u8>> = items.iter().filter(|i| !i.fail).map(|i| &i.bytes).collect();
     if !flushed {
         out.push_str("\tFAIL:flush");
-    } else if sep.len() == 1 && evs.iter().all(|e| !e[..e.len().saturating_sub(1)].contains(&sep[0])) {
-        // oracle: every record but the last piece is exactly one payload (minus its own trailing separator)
+    } else if failed != items.iter().filter(|i| i.fail).count() {
+        out.push_str("\tFAIL:format-failed-count");
+    } else if sep.len() == 1 && oks.iter().all(|e| !e[..e.len().saturating_sub(1)].contains(&sep[0])) {
+        // oracle: every record but the last piece is exactly one successfully formatted payload (minus its own
+        // trailing separator); failed formats leave no byte anywhere
         let recs: Vec<&[u8]> = content.split(|b| *b == sep[0]).collect();
-        let want: Vec<Vec<u8>> = evs.iter().map(|e| if e.last() == Some(&sep[0]) { e[..e.len() - 1].to_vec() } else { e.clone() }).collect();
+        let want: Vec<Vec<u8>> = oks.iter().map(|e| if e.last() == Some(&sep[0]) { e[..e.len() - 1].to_vec() } else { (*e).clone() }).collect();
         let ok = recs.len() == want.len() + 1 && recs[recs.len() - 1].is_empty() && recs.iter().zip(want.iter()).all(|(a, b)| *a == &b[..]);
         if !ok {
-            out.push_str("\tFAIL:emit-separator");
+            out.push_str("\tFAIL:emit-record");
         }
     }
     out
@@ -123,8 +155,17 @@ fn run(line: &str) -> String {
                 if t != "ev" {
                     return None;
                 }
-                let evs: Vec<Vec<u8>> = evs.iter().map(|e| e.as_bytes()).collect::<Option<_>>()?;
-                Some(run_custom(sep, evs))
+                let mut items = Vec::new();
+                for e in evs {
+                    items.push(match e.as_tagged() {
+                        Some(("t", [p])) => Item { bytes: p.as_bytes()?, fail: false, other_thread: true },
+                        Some(("fail", [p])) => Item { bytes: p.as_bytes()?, fail: true, other_thread: false },
+                        Some(("tfail", [p])) => Item { bytes: p.as_bytes()?, fail: true, other_thread: true },
+                        Some(_) => return None,
+                        None => Item { bytes: e.as_bytes()?, fail: false, other_thread: false },
+                    });
+                }
+                Some(run_custom(sep, items))
             }
             ("json", 1) => {
                 let (t, evs) = a[0].as_tagged()?;
@@ -157,9 +198,21 @@ fn gen(rng: &mut Rng, _tier: Tier, n: usize) -> Vec<String> {
                 2 => vec![b'\r', b'\n'],
                 _ => vec![b'\n'],
             };
-            let k = rng.range(0, 5);
+            let k = rng.range(0, 6);
+            let failing = rng.bool();
             let mut evs = Vec::new();
             for _ in 0..k {
+                // a writer that fails after writing 0..k bytes, from this or another thread
+                if failing && rng.chance(1, 3) {
+                    let n = *rng.pick(&[0u64, 1, 5, 24]);
+                    let mut part = super::c10::gen_payload(rng, &sep, n);
+                    if rng.chance(1, 4) {
+                        part.extend_from_slice(&sep);
+                    }
+                    let tag = if rng.chance(1, 3) { "tfail" } else { "fail" };
+                    evs.push(Sexp::tagged(tag, vec![Sexp::bytes(&part)]));
+                    continue;
+                }
                 let mut e = super::c10::gen_payload(rng, &sep, 24);
                 match rng.below(6) {
                     0 | 1 => e.extend_from_slice(&sep),          // the writer finished with the separator itself
@@ -167,7 +220,11 @@ fn gen(rng: &mut Rng, _tier: Tier, n: usize) -> Vec<String> {
                     3 if sep.len() > 1 => e.extend_from_slice(&sep[..1]),
                     _ => {}
                 }
-                evs.push(Sexp::bytes(&e));
+                if failing && rng.chance(1, 4) {
+                    evs.push(Sexp::tagged("t", vec![Sexp::bytes(&e)]));
+                } else {
+                    evs.push(Sexp::bytes(&e));
+                }
             }
             out.push(Sexp::tagged("emit", vec![Sexp::bytes(&sep), Sexp::tagged("ev", evs)]).to_string());
         } else {
